@@ -398,6 +398,14 @@ func checkConv(p *Prog, r *Report, pkg, prop string) {
 		floor := map[string]int{"panos": 14, "nsx": 6}[pkg]
 		ruleMarkDiscipline(p, r, "R-M", prop, pkg, []string{".needed", ".nameOnDevice"}, floor)
 	}
+	if pkg == "linux" {
+		r.rule("R05.n", "The iptables normaliser (linux.normalizeIPTables) decides which spellings of a rule are the same rule, so what it equates is reported as no change: its deletions, stores and string operations keep their audited conditions (rows of tables/guards.tsv, compared by R-G) and it works with exactly the audited constants (suffixes it cuts, values it substitutes; tables/normaliser_consts.tsv).")
+		ruleNormaliserConsts(p, r, "R05.n", prop)
+	}
+	if pkg == "panos" || pkg == "nsx" {
+		ruleComparatorsSymmetric(p, r, map[string]bool{pkg: true}, map[string]int{"panos": 9, "nsx": 1}[pkg])
+		ruleSides(p, r, "R-SIDE", prop, map[string]bool{pkg: true}, map[string]int{"panos": 17, "nsx": 8}[pkg])
+	}
 	ruleCommandsOnlyGrow(p, r, pkg)
 	ruleStickyState(p, r, prop, map[string]bool{pkg: true}, map[string]int{"panos": 1, "nsx": 1, "linux": 2}[pkg])
 	ruleCutsetMisuse(p, r, map[string]bool{pkg: true})
